@@ -351,6 +351,14 @@ func registerExternals(e *Engine) {
 	x["runtime.Caller"] = func(p *Path, th *Thread, fr *frame, a []Value) Value {
 		return Tuple{ConstT(64, 0), "verif.go", mkInt(1), TrueT}
 	}
+	// gRPC status errors: opaque non-nil errors (codes are not property-relevant)
+	x["google.golang.org/grpc/status.Error"] = func(p *Path, th *Thread, fr *frame, a []Value) Value {
+		msg, _ := a[1].(string)
+		return p.eng.makeError(p, "rpc error: "+msg, nil)
+	}
+	x["google.golang.org/grpc/status.Errorf"] = func(p *Path, th *Thread, fr *frame, a []Value) Value {
+		return p.eng.makeError(p, "rpc error", nil)
+	}
 	for _, n := range []string{"log.Printf", "log.Println", "log.Print"} {
 		x[n] = func(p *Path, th *Thread, fr *frame, a []Value) Value { return nil }
 	}
